@@ -44,6 +44,9 @@ def to_term(eng, st, v, ty):
             return eng.as_iseq(st, v).t
         raise Unsupported(f"spec arg {v!r} for {ty}")
     if isinstance(ty, tuple) and ty[0] in ("list", "tuplelist"):
+        from .engine import as_vlist
+        if not isinstance(v, VList) and as_vlist(v) is not None:
+            v = as_vlist(v)
         if isinstance(v, VList):
             return v.t
         if isinstance(v, VAny):
